@@ -12,7 +12,7 @@ META = dict(
     property_id="C13", engine="TxnStore",
     technique="TLA+ API-level transaction spec (TxnStore: configuration digest constant across commits) + TLC trace validation of histories over stores with adversarial names/descriptions and all option combinations, observed from a fresh OS process",
     level="model_checking",
-    level_text="Every reopen and every observation of every history must carry the configuration digest recorded at creation and the specified count (TLC rejects the trace otherwise); names/descriptions are drawn from a list built around the metadata field names (count, timestamp, slot_length, ...), escaped quotes, braces, colons, backslashes and unicode, crossed with value placements, slot lengths, uniqueness and load balancing.",
+    level_text="Every reopen and every observation of every history must carry the configuration digest recorded at creation and the specified count (TLC rejects the trace otherwise); names/descriptions are drawn from a list built around the metadata field names (count, timestamp, slot_length, ...), escaped quotes, braces, colons, backslashes and unicode, crossed with value placements, slot lengths, uniqueness and load balancing; every third program is a tide program whose count rises and falls across 10 and 100 (12, 9, 10, 0, 100+x, 99, 100, 99, 9), observed from a fresh child process after every commit, so the persisted count gains and loses decimal digits both ways.",
     level_note="The digest covers the fields of sop.StoreInfo except Count/Timestamp; it is computed by the driver from StoreRepository.Get / GetStoreInfo; name and description inputs are a fixed adversarial list, not all strings.",
     design_ref="C13",
 )
@@ -34,7 +34,7 @@ def classify(r):
 def run(c):
     binp = c.build("txn")
     c.tlc_must_pass("TxnStoreMC", "TxnStoreMC.cfg", workers=8, timeout=300)
-    g = _txncfg.gen(c, "n", MaxStores=3, MaxTxns=5, MaxOps=8, Keys=8, Adversarial=True, Rollbacks=True)
+    g = _txncfg.gen(c, "n", MaxStores=3, MaxTxns=5, MaxOps=8, Keys=8, Adversarial=True, Rollbacks=True, Tide=True)
     seq = txnlib.run_driver(c, binp, "seq", _txncfg.cfg(c, "seq", c.pick(60, 600), g, child=1))
     classes = txnlib.validate_skipping(c, seq, "TxnStoreTrace.cfg", classify)
     names = {(s["Name"], s["Desc"]) for _, h, _ in seq for s in h.get("program", {}).get("stores", [])}
